@@ -147,7 +147,8 @@ def check_label(label, files, primary, code, spellings, msg):
 def add_oscat(text, rng, non_ascii):
     body = rng.choice(["any text\nsecond line", "x", "", "a (* b *) c"]) if not non_ascii else \
         rng.choice(["ébc", "日本語\nzwei", "grüße €", "ñ"])
-    hdr = "%s\n%s\n%s\n" % (OSCAT_OPEN, body, OSCAT_CLOSE)
+    nl = rng.choice(["\n", "\r\n"])
+    hdr = "%s%s%s%s%s%s" % (OSCAT_OPEN, nl, body.replace("\n", nl), nl, OSCAT_CLOSE, nl)
     return hdr + text
 
 
@@ -167,6 +168,8 @@ def shard(shard_i, nshards, payload):
             kind = "plain"
             oscat = False
             if i % 5 == 1:
+                if rng.random() < 0.3:
+                    text = text.replace("\r\n", "\n").replace("\n", "\r\n")
                 text = add_oscat(text, rng, non_ascii=(i % 10 == 1))
                 oscat = True
                 kind = "oscat-nonascii" if i % 10 == 1 else "oscat"
